@@ -11,6 +11,7 @@ import logging
 from dataclasses import dataclass
 from typing import TYPE_CHECKING
 
+from happysimulator.components.queue import QueueNotifyEvent
 from happysimulator.components.queue_policy import FIFOQueue, QueuePolicy
 from happysimulator.components.queued_resource import QueuedResource
 from happysimulator.core.event import Event
@@ -167,7 +168,12 @@ class ShiftedServer(QueuedResource):
 
         # Schedule the next shift change (self-perpetuating)
         next_event = self._schedule_next_shift(after_s=time_s)
-        return [next_event] if next_event else []
+        events = [next_event] if next_event else []
+        if new_capacity > old_capacity:
+            # Items queued while there was no free capacity are only fetched on
+            # a notify or a completion: tell the driver to look at the queue.
+            events.append(QueueNotifyEvent(time=self.now, target=self.driver, queue_entity=self.queue))
+        return events
 
     def _schedule_next_shift(self, after_s: float | None = None) -> Event | None:
         """Schedule only the next transition event (strictly after ``after_s``)."""
